@@ -185,8 +185,17 @@ def _mfpca_case(rng, normalize, image=False):
         d = [x - d[0] + 1 for x in d]
         X = [[mean[j] + c * d[j] for j in range(m)] for c in cs]
         comps.append(dict(t=Svec(t), X=Smat(X)))
-    return dict(kind="mfpca", normalize=normalize, comps=comps, sel=["int", 1], ck="affine-mean-rank1" + ("-image" if image else ""),
+    case = dict(kind="mfpca", normalize=normalize, comps=comps, sel=["int", 1], ck="affine-mean-rank1" + ("-image" if image else ""),
                 a=rs(rng.dyadic(-3, 3, 2)), b=rs(rng.dyadic(-3, 3, 2)), seed=rng.subseed())
+    if not image:
+        # failure-injection history: the fitted estimator is refitted on data with ANOTHER number of components
+        nR = rng.randint(3, 5)
+        case["R_comps"] = []
+        for _ in range(3):
+            tR = grid(rng, rng.randint(5, 8), uniform=True)
+            XR, _ = curves(rng, nR, tR, "lowrank", rank=2)
+            case["R_comps"].append(dict(t=Svec(tR), X=Smat(XR)))
+    return case
 
 
 def search_cases(rng, tier):
@@ -202,8 +211,21 @@ W_UNCENTRED = dict(kind="ufpca", method="covariance", normalize=True, score="Num
 W_ATOMIC = {'kind': 'ufpca', 'method': 'inner-product', 'normalize': True, 'score': 'NumInt', 'sel': ['int', 1], 'ck': 'witness-atomicity', 'dim': 1, 't': ['0', '1/4', '1/2', '3/4', '1'], 'X': [['1', '2', '4', '3', '1'], ['0', '1', '1', '2', '5'], ['2', '2', '0', '1', '3'], ['1', '0', '3', '3', '2']], 'a': '1', 'b': '1', 'seed': 5, 'inject': True, 'R': {'dim': 2, 't': ['0', '1'], 't2': ['0', '1/2', '1'], 'X': [['1', '0', '2', '1', '3', '0'], ['0', '2', '1', '1', '0', '4'], ['3', '1', '0', '2', '2', '1']]}}
 
 
+def _finding_witnesses(kind):
+    """Witness cases stored with the open findings of known_findings.d/C03.json (replayed on every run)."""
+    import json
+    import os
+
+    path = os.path.join(os.path.dirname(os.path.dirname(os.path.abspath(__file__))), "known_findings.d", "C03.json")
+    try:
+        return [dict(f["witness"]) for f in json.load(open(path)).get("open", []) if f.get("witness", {}).get("kind") == kind]
+    except (OSError, ValueError):
+        return []
+
+
 def witness_cases():
-    return [dict(W_UNCENTRED), dict(W_UNCENTRED, score="PACE"), dict(W_ATOMIC)]
+    # W_ATOMIC: regression case of the fixed finding C03-fit-not-atomic (commit 3fc0e40)
+    return [dict(W_UNCENTRED), dict(W_UNCENTRED, score="PACE"), dict(W_ATOMIC)] + _finding_witnesses("mfpca")
 
 
 # --------------------------------------------------------------------------
@@ -492,6 +514,8 @@ def _run_mfpca(case):
             out["inv1"] = [_flat(c.values) for c in est.inverse_transform(A1).data]
             out["inv2"] = [_flat(c.values) for c in est.inverse_transform(A2).data]
             out["inv12"] = [_flat(c.values) for c in est.inverse_transform(a * A1 + b * A2).data]
+    if "R_comps" in case:
+        out["F"] = _failure_history_mfpca(case)
     return out
 
 
@@ -879,6 +903,81 @@ def _oracle_one(case, impl):
     return vs
 
 
+def _failure_history_mfpca(case):
+    """The `_failure_history` of UFPCA for MFPCA.fit (inner-product method): refit on data with another number of
+    components, a failure injected into each internal step in turn, warnings escalated to errors, and the plain refit."""
+    import json
+    import warnings
+
+    from common import jsonable
+    from FDApy.preprocessing.dim_reduction import mfpca as M
+    from FDApy.representation.functional_data import MultivariateFunctionalData as MF
+
+    def data(comps):
+        return MF([_comp_fd(c, list(range(len(c["X"])))) for c in comps])
+
+    mk = lambda: M.MFPCA(n_components=sel_to_py(case["sel"]), method="inner-product", normalize=case["normalize"])  # noqa: E731
+
+    def observe(est):
+        o = {}
+        K = len(est.eigenvalues)
+        with quiet():
+            for key, f in (("mean", lambda: [_flat(c.values) for c in est.mean.data]),
+                           ("weights", lambda: [float(x) for x in np.asarray(est.weights, dtype=float)]),
+                           ("vals", lambda: [float(x) for x in est.eigenvalues]),
+                           ("phi", lambda: [_flat(c.values) for c in est.eigenfunctions.data]),
+                           ("s_none", lambda: np.asarray(est.transform(None, method="NumInt"), dtype=float).tolist()),
+                           ("inv", lambda: [_flat(c.values) for c in est.inverse_transform(np.ones((1, K))).data])):
+                v, e = _try(f)
+                o[key] = ["error", e] if e else v
+        return {k: json.dumps(jsonable(v)) for k, v in o.items()}
+
+    with quiet():
+        e0, e1 = mk(), mk()
+        _, err = _try(lambda: e0.fit(data(case["comps"])))
+        _, err1 = _try(lambda: e1.fit(data(case["R_comps"])))
+    if err or err1:
+        return dict(skipped=f"{err} / {err1}")
+    old, new = observe(e0), observe(e1)
+    res = []
+    for point in ["none", "mean", "center", "rescale", "noise_variance", "fit_helper", "warning_as_error"]:
+        est = mk()
+        with quiet():
+            est.fit(data(case["comps"]))
+
+        def boom(*a, **k):
+            raise _Injected(point)
+
+        patches = {"mean": [(MF, "mean")], "center": [(MF, "center")], "rescale": [(MF, "rescale")],
+                   "noise_variance": [(MF, "noise_variance")],
+                   "fit_helper": [(M, "_fit_inner_product_multivariate")]}.get(point, [])
+        saved = [(o, n, getattr(o, n)) for o, n in patches if hasattr(o, n)]
+        raised = None
+        try:
+            for o, n, _ in saved:
+                setattr(o, n, boom)
+            with warnings.catch_warnings(), np.errstate(all="ignore"):
+                warnings.simplefilter("error" if point == "warning_as_error" else "ignore")
+                try:
+                    est.fit(data(case["R_comps"]))
+                except _Injected:
+                    raised = "Injected"
+                except Warning as w:
+                    raised = "Warning:" + type(w).__name__
+                except Exception as e:  # noqa: BLE001
+                    raised = "Other:" + type(e).__name__
+        finally:
+            for o, n, f in saved:
+                setattr(o, n, f)
+        after = observe(est)
+        cls = {}
+        for key in after:
+            so, sn = after[key] == old[key], after[key] == new[key]
+            cls[key] = "same" if (so and sn) else "old" if so else "new" if sn else "neither"
+        res.append(dict(point=point, raised=raised, cls=cls))
+    return dict(points=res)
+
+
 def _oracle_mfpca(case, impl):
     entry = "MFPCA.inverse_transform"
     if "__crash__" in impl:
@@ -886,6 +985,24 @@ def _oracle_mfpca(case, impl):
     if "error" in impl:
         return [dict(clause="runs", entry="MFPCA.fit", msg=f"fit failed with {impl['error']}")]
     vs = []
+    for h in (impl.get("F") or {}).get("points", []):
+        cls = h["cls"]
+        olds = {k for k, v in cls.items() if v == "old"}
+        news = {k for k, v in cls.items() if v == "new"}
+        odd = {k for k, v in cls.items() if v == "neither"}
+        ok = (not olds and not odd) if h["raised"] is None else (not odd and (not olds or not news))
+        if not ok:
+            base = {k: cls[k] for k in ("mean", "weights", "vals", "phi") if k in cls}
+            b_new = {k for k, v in base.items() if v == "new"}
+            b_odd = {k for k, v in base.items() if v == "neither"}
+            causes = []
+            if h["raised"] is not None and not b_odd and b_new and b_new <= {"mean", "weights"} and cls.get("s_none") in ("old", "same"):
+                causes.append(INCREMENTAL)       # only mean / weights moved before the failure
+            if h["raised"] is None and base.get("weights") == "old" and not (b_odd - {"weights"}) and {k for k, v in base.items() if v == "old"} == {"weights"}:
+                causes.append(INCREMENTAL)       # weights of the previous fit survive a successful refit
+            vs.append(dict(clause="fit_atomicity", entry="MFPCA.fit", causes=causes,
+                           msg=f"MFPCA refit ({len(case['comps'])} -> {len(case['R_comps'])} components, normalize={case['normalize']}) with a failure injected at `{h['point']}` (raised: {h['raised']}): "
+                               f"the estimator is a mixture — old: {sorted(olds)}, new: {sorted(news)}, neither: {sorted(odd)}"))
     a, b = float(F(case["a"])), float(F(case["b"]))
     for p, c in enumerate(case["comps"]):
         X = np.array(fl(Fm(c["X"])))
